@@ -85,6 +85,13 @@ def run_C05(ctx):
     tf = core.run_runner(ctx, "e2e", peers, tag="peer")
     acc, rej = core.validate(ctx, "TraceWire", tf, tag="peer", sigfn=sig("C05"))
     core.judge(ctx, rej)
+    # ... and as a conformant foreign client against the real handler, every freedom of a request writer
+    peerc = core.generate(ctx, "MC_Wire", "Gen_Wire_PeerC.cfg", tag="genpeerc")["scenarios"]
+    ctx.notes["peer_client_scenarios_generated"] = len(peerc)
+    peerc = core.sample(ctx.rng, peerc, 6000 if quick else len(peerc))
+    tf = core.run_runner(ctx, "e2e", peerc, tag="peerc")
+    acc, rej = core.validate(ctx, "TraceWire", tf, tag="peerc", sigfn=sig("C05"))
+    core.judge(ctx, rej)
     return run_wire(ctx, ["C02", "C08", "C11", "C01"], 8000, 80000, 300)
 
 
